@@ -4,7 +4,7 @@ cd /verif
 OUT=seeded/RESULTS.tsv
 : > $OUT
 for d in seeded/*/; do
-  id=$(basename $d); prop=${id%%-*}; prop=${prop/H/C}
+  id=$(basename $d); prop=${id%%-*}; prop=C${prop:1}
   tools/mutant.sh $d/patch.diff $prop quick > /tmp/st.out 2>&1
   rc=$(grep -o 'exit=[0-9]*' /tmp/st.out | head -1)
   secs=$(grep -o 'secs=[0-9]*' /tmp/st.out | head -1)
